@@ -71,9 +71,11 @@ def seeds_table():
 def mutants_table():
     from rules import mutants
     res = {}
-    for p in glob.glob(os.path.join(VERIF, "evidence", "C*.json")):
-        e = json.load(open(p))
-        mu = e["coverage"].get("mutants")
+    try:
+        last = json.load(open(os.path.join(VERIF, "mutants_last.json")))
+    except Exception:
+        last = {}
+    for prop, mu in sorted(last.items()):
         if mu:
             for x in mu["details"]:
                 res[x["id"]] = "reported: " + ", ".join("`%s`" % esc(k[:90]) for k in x["reported"][:2])
